@@ -428,6 +428,11 @@ pub fn finish(ctx: Ctx, verif_dir: &str) -> i32 {
     let dir = format!("{verif_dir}/replays/{}", ctx.id);
     let _ = std::fs::create_dir_all(&dir);
     let mut first_path = String::new();
+    if let Ok(path) = std::env::var("FVC_DUMP") {
+        // development aid: all violation keys that are not listed as findings, one per line
+        let all: Vec<String> = new_violations.iter().map(|v| v.key.clone()).collect();
+        let _ = std::fs::write(path, all.join("\n"));
+    }
     let show = std::env::var("FVC_SHOW").ok();
     let mut shown = 0;
     for (n, v) in new_violations.iter().enumerate() {
